@@ -439,7 +439,9 @@ func main() {
 	sut.QuietStderr(filepath.Join(scratch, "stderr.log"))
 	w := world.New("C20")
 	defer w.Close()
-	good := func(n int) []byte { return gen.SpecFor(w.Int, gen.Entries(rng, gen.Opts{N: n, SerialWidth: 8})).Build(w.Int.Key).DER }
+	good := func(n int) []byte {
+		return gen.SpecFor(w.Int, gen.Entries(rng, gen.Opts{N: n, SerialWidth: 8})).Build(w.Int.Key).DER
+	}
 	w.CRL.SetDefault(origin.Good(good(20)))
 
 	// (B) one store per distinct location; same store after restart, zero hits
